@@ -16,6 +16,8 @@ RULE = ("differential corpus: every deterministic public function family {all st
         "hook: every reported flag must be implied by the Intel SDM rule (reported => provided), XGETBV only with OSXSAVE; unscripted "
         "flags subset of /proc/cpuinfo and of the harness's own CPUID/XGETBV reading.")
 
+RULE = RULE + ' Utils corpus: operands over the word alphabet {00.., ff.., 01 00.., ff.. 7f, one all-ones 8-byte word at each index} x 12 lengths 7..70 through compare/memcmp/add/sub/increment (amd64 assembly paths against the portable loops).'
+
 META = {
     "engine": "E-shape", "level": "exploration",
     "technique": "exhaustive enumeration of CPU-feature configurations x build variants over a fixed corpus with digest comparison against the reference configuration; exhaustive model check of the feature detector over all 2^17 x 3 scripted CPUID/XCR0 answers",
